@@ -1,1 +1,848 @@
-//! placeholder
+//! Binding the environment model to the real binary (DESIGN 4.5).
+//!
+//! Both engines build /repo with the guard OFF into /verif/.build/repo-target and drive
+//! `target/debug/ruler`:
+//!
+//!  * `realfs`: every `hist` trace of a few scenarios up to a depth is replayed in a
+//!    scratch directory with /bin/sh commands; after every operation the real directory
+//!    must agree with MemSystem on verdict class, status lines, workspace bytes and
+//!    permissions, cache entry names and decoded history.
+//!  * `serve` (C19): ruler directories reached by `hist` are materialised, the real
+//!    binary is started with `serve <port>` and a complete request menu is issued over
+//!    plain TCP on the loopback interface.
+use std::collections::{BTreeMap, BTreeSet};
+use std::fs;
+use std::io::{Read, Write};
+use std::net::{TcpListener, TcpStream};
+use std::os::unix::fs::PermissionsExt;
+use std::path::{Path, PathBuf};
+use std::process::{Child, Command, Stdio};
+use std::sync::atomic::{AtomicUsize, Ordering};
+use std::sync::{Arc, Mutex};
+use std::time::{Duration, Instant};
+
+use serde_json::{json, Value};
+
+use crate::hist::{self, apply, enabled_ops, initial_state, Ctx, Op, Oracles, Scenario, State, Stats, TAMPER_CONTENT};
+use crate::memsys::{ClockModel, Fs, Node};
+use crate::model::*;
+use crate::refsha;
+use crate::report::{self, Report, Violation};
+use crate::sched;
+use crate::world::*;
+
+pub const REPO_TARGET: &str = "/verif/.build/repo-target";
+
+/// Build /repo's binary from the current working tree with the guard off.
+pub fn build_real_binary() -> Result<PathBuf, String>
+{
+    let out = Command::new("cargo")
+        .args(["build", "--offline", "--bin", "ruler"])
+        .current_dir("/repo")
+        .env("CARGO_TARGET_DIR", REPO_TARGET)
+        .env("CARGO_NET_OFFLINE", "true")
+        .env_remove("RUSTFLAGS")
+        .output()
+        .map_err(|e| format!("cannot run cargo: {}", e))?;
+    if !out.status.success()
+    {
+        return Err(format!("building /repo failed:\n{}", String::from_utf8_lossy(&out.stderr).lines().filter(|l| l.starts_with("error")).take(10).collect::<Vec<_>>().join("\n")));
+    }
+    let p = PathBuf::from(format!("{}/debug/ruler", REPO_TARGET));
+    if p.is_file() { Ok(p) } else { Err("binary not found after build".to_string()) }
+}
+
+fn scratch(name: &str) -> PathBuf
+{
+    let p = report::work_dir().join(format!("{}-{}", name, std::process::id()));
+    let _ = fs::remove_dir_all(&p);
+    fs::create_dir_all(&p).expect("create scratch dir");
+    p
+}
+
+// ---------------------------------------------------------------------------
+// realfs
+
+fn write_file(dir: &Path, rel: &str, data: &[u8])
+{
+    let p = dir.join(rel);
+    if let Some(parent) = p.parent() { let _ = fs::create_dir_all(parent); }
+    // same inode semantics as a shell redirect: truncate in place, keep permissions
+    let mut f = fs::OpenOptions::new().write(true).create(true).truncate(true).open(&p).expect("write file");
+    f.write_all(data).expect("write");
+    drop(f);
+    std::thread::sleep(Duration::from_millis(2));
+}
+
+fn strip_ansi(s: &str) -> String
+{
+    let mut out = String::new();
+    let mut it = s.chars().peekable();
+    while let Some(c) = it.next()
+    {
+        if c == '\u{1b}'
+        {
+            while let Some(d) = it.next() { if d == 'm' { break; } }
+        }
+        else { out.push(c); }
+    }
+    out
+}
+
+pub struct RealRun
+{
+    pub ok: bool,
+    pub stderr: String,
+    pub banners: Vec<(String, String)>,
+}
+
+fn run_ruler(bin: &Path, dir: &Path, args: &[&str]) -> RealRun
+{
+    let out = Command::new(bin).args(args).current_dir(dir).output().expect("run ruler");
+    let stdout = strip_ansi(&String::from_utf8_lossy(&out.stdout));
+    let stderr = String::from_utf8_lossy(&out.stderr).to_string();
+    let mut banners = vec![];
+    for l in stdout.lines()
+    {
+        if let Some(i) = l.find(": ")
+        {
+            let b = l[..i].trim();
+            if ["Built", "Recovered", "Up-to-date", "Downloaded", "Outdated"].contains(&b)
+            {
+                banners.push((b.to_string(), l[i + 2..].to_string()));
+            }
+        }
+    }
+    banners.sort();
+    std::thread::sleep(Duration::from_millis(2));
+    RealRun { ok: stderr.trim().is_empty(), stderr, banners }
+}
+
+/// (workspace files -> (bytes, exec), cache names, decoded history)
+fn observe_real(dir: &Path) -> (BTreeMap<String, (Vec<u8>, bool)>, BTreeSet<String>, DecodedHistory)
+{
+    let mut ws = BTreeMap::new();
+    fn walk(base: &Path, rel: &str, out: &mut BTreeMap<String, (Vec<u8>, bool)>)
+    {
+        let d = if rel.is_empty() { base.to_path_buf() } else { base.join(rel) };
+        if let Ok(rd) = fs::read_dir(&d)
+        {
+            for e in rd.flatten()
+            {
+                let name = e.file_name().to_string_lossy().to_string();
+                let r = if rel.is_empty() { name.clone() } else { format!("{}/{}", rel, name) };
+                if r == ".ruler" || r == RULES_FILE { continue; }
+                let md = match e.metadata() { Ok(m) => m, Err(_) => continue };
+                if md.is_dir() { walk(base, &r, out); }
+                else { out.insert(r, (fs::read(e.path()).unwrap_or_default(), md.permissions().mode() & 0o111 != 0)); }
+            }
+        }
+    }
+    walk(dir, "", &mut ws);
+    let mut cache = BTreeSet::new();
+    if let Ok(rd) = fs::read_dir(dir.join(CACHE_DIR)) { for e in rd.flatten() { cache.insert(e.file_name().to_string_lossy().to_string()); } }
+    let mut hist: DecodedHistory = BTreeMap::new();
+    if let Ok(rd) = fs::read_dir(dir.join(HISTORY_DIR))
+    {
+        for e in rd.flatten()
+        {
+            let name = e.file_name().to_string_lossy().to_string();
+            if name.ends_with(".tmp") { continue; }
+            let data = fs::read(e.path()).unwrap_or_default();
+            let dec: Option<MRuleHistory> = bincode::deserialize(&data).ok();
+            hist.insert(name, dec.map(|h| h.source_to_targets.into_iter().map(|(k, v)| (k.sha, v.infos.into_iter().map(|i| i.ticket.sha).collect())).collect()));
+        }
+    }
+    (ws, cache, hist)
+}
+
+fn observe_model(fs: &Fs) -> (BTreeMap<String, (Vec<u8>, bool)>, BTreeSet<String>, DecodedHistory)
+{
+    let mut ws = BTreeMap::new();
+    for (p, n) in fs.map.iter()
+    {
+        if let Node::File(f) = n
+        {
+            if !p.starts_with(".ruler") && p != RULES_FILE { ws.insert(p.clone(), ((*f.data).clone(), f.exec)); }
+        }
+    }
+    let cache: BTreeSet<String> = cache_listing(fs).into_iter().map(|x| x.0).collect();
+    let mut h = decode_history(fs);
+    h.retain(|k, _| !k.ends_with(".tmp"));
+    (ws, cache, h)
+}
+
+/// Model side of one trace: per step (verdict ok?, banners, observation)
+fn model_trace(sc: &Scenario, ops: &[Op]) -> Option<Vec<(bool, Vec<(String, String)>, (BTreeMap<String, (Vec<u8>, bool)>, BTreeSet<String>, DecodedHistory))>>
+{
+    let sc2 = sc.clone();
+    let ops2 = ops.to_vec();
+    let (r, o) = sched::run_once(vec![], move ||
+    {
+        let or = Oracles::default();
+        let ctx = Ctx { sc: &sc2, clock: ClockModel::Strict, or: &or };
+        let rc = RunCfg::serial(ClockModel::Strict);
+        let mut st = initial_state(&sc2, false);
+        let mut out = vec![];
+        for op in &ops2
+        {
+            let mut stats = Stats::default();
+            let mut f = vec![];
+            // verdict and banners need the RunResult: run build/clean here directly
+            let (ok, banners) = match op
+            {
+                Op::Build { goal } =>
+                {
+                    let rr = run_build(&st.fs, &rc, goal);
+                    let mut b: Vec<(String, String)> = rr.prints.iter().filter_map(|p| if let PrintRec::Banner(t, path) = p { Some((t.clone(), path.clone())) } else { None }).collect();
+                    b.sort();
+                    (rr.verdict == Verdict::Ok, b)
+                },
+                Op::Clean { goal } => { let rr = run_clean(&st.fs, &rc, goal); (rr.verdict == Verdict::Ok, vec![]) },
+                _ => (true, vec![]),
+            };
+            st = apply(&ctx, &st, op, &mut stats, &mut f);
+            out.push((ok, banners, observe_model(&st.fs)));
+        }
+        out
+    });
+    if o.failure.is_some() { return None; }
+    r
+}
+
+fn apply_real(bin: &Path, dir: &Path, sc: &Scenario, op: &Op) -> Option<RealRun>
+{
+    match op
+    {
+        Op::Edit { path, val } => { let v = sc.edits.iter().find(|(p, _)| p == path).unwrap().1[*val].clone(); write_file(dir, path, &v); None },
+        Op::RmLeaf { path } | Op::Delete { path } => { let _ = fs::remove_file(dir.join(path)); None },
+        Op::Tamper { path } => { write_file(dir, path, TAMPER_CONTENT.as_bytes()); None },
+        Op::DropCache { name } => { let _ = fs::remove_file(dir.join(CACHE_DIR).join(name)); None },
+        Op::RmRuler => { let _ = fs::remove_dir_all(dir.join(RULER_DIR)); None },
+        Op::RmHistory => { let _ = fs::remove_dir_all(dir.join(HISTORY_DIR)); None },
+        Op::RmCache => { let _ = fs::remove_dir_all(dir.join(CACHE_DIR)); None },
+        Op::RmTable => { let _ = fs::remove_file(dir.join(TABLE_FILE)); None },
+        Op::Rules { k } => { write_file(dir, RULES_FILE, render_rules(&sc.variants[*k]).as_bytes()); None },
+        Op::Build { goal } =>
+        {
+            let mut args = vec!["build"];
+            if let Some(g) = goal { args.push(g); }
+            Some(run_ruler(bin, dir, &args))
+        },
+        Op::Clean { goal } =>
+        {
+            let mut args = vec!["clean"];
+            if let Some(g) = goal { args.push(g); }
+            Some(run_ruler(bin, dir, &args))
+        },
+    }
+}
+
+/// Replay one trace on the real binary and compare with the model after every op.
+pub fn replay_trace_real(bin: &Path, sc: &Scenario, ops: &[Op], dir: &Path) -> Option<String>
+{
+    let model = match model_trace(sc, ops) { Some(m) => m, None => return Some("model execution failed".to_string()) };
+    let _ = fs::remove_dir_all(dir);
+    fs::create_dir_all(dir).ok()?;
+    for (p, dom) in &sc.edits { write_file(dir, p, &dom[0]); }
+    write_file(dir, RULES_FILE, render_rules(&sc.variants[0]).as_bytes());
+    for (i, op) in ops.iter().enumerate()
+    {
+        let real = apply_real(bin, dir, sc, op);
+        let (ok, banners, (ws, cache, hist)) = &model[i];
+        if let Some(rr) = &real
+        {
+            if rr.ok != *ok
+            {
+                return Some(format!("step {} {}: real binary {} (stderr {:?}) but the model {}", i, op.short(), if rr.ok { "succeeds" } else { "fails" }, crate::cli::first_line(&rr.stderr), if *ok { "succeeds" } else { "fails" }));
+            }
+            if matches!(op, Op::Build { .. }) && rr.ok && rr.banners != *banners
+            {
+                return Some(format!("step {} {}: status lines differ: real {:?} model {:?}", i, op.short(), rr.banners, banners));
+            }
+        }
+        let (rws, rcache, rhist) = observe_real(dir);
+        if &rws != ws
+        {
+            let show = |m: &BTreeMap<String, (Vec<u8>, bool)>| m.iter().map(|(k, v)| format!("{}={:?}{}", k, String::from_utf8_lossy(&v.0), if v.1 { "[x]" } else { "" })).collect::<Vec<_>>().join(" ");
+            return Some(format!("step {} {}: workspace differs: real {{{}}} model {{{}}}", i, op.short(), show(&rws), show(ws)));
+        }
+        if &rcache != cache
+        {
+            return Some(format!("step {} {}: cache entries differ: real {:?} model {:?}", i, op.short(), rcache, cache));
+        }
+        if &rhist != hist
+        {
+            return Some(format!("step {} {}: rule histories differ: real {} files, model {} files", i, op.short(), rhist.len(), hist.len()));
+        }
+    }
+    None
+}
+
+/// All op sequences of length <= depth reachable in the model (one per distinct canonical state path)
+fn traces(sc: &Scenario, depth: usize) -> Vec<Vec<Op>>
+{
+    let sc2 = sc.clone();
+    let (r, _o) = sched::run_once(vec![], move ||
+    {
+        let or = Oracles::default();
+        let ctx = Ctx { sc: &sc2, clock: ClockModel::Strict, or: &or };
+        let mut seen = std::collections::HashSet::new();
+        let init = initial_state(&sc2, false);
+        seen.insert(init.key(false));
+        let mut frontier = vec![init];
+        let mut out: Vec<Vec<Op>> = vec![];
+        for _ in 0..depth
+        {
+            let mut next = vec![];
+            for st in &frontier
+            {
+                for op in enabled_ops(&sc2, st)
+                {
+                    let mut stats = Stats::default();
+                    let mut f = vec![];
+                    let ns = apply(&ctx, st, &op, &mut stats, &mut f);
+                    if seen.insert(ns.key(false))
+                    {
+                        out.push(ns.path.clone());
+                        next.push(ns);
+                    }
+                }
+            }
+            frontier = next;
+        }
+        out
+    });
+    r.unwrap_or_default()
+}
+
+pub fn run_realfs(rep: &mut Report, tier: &str)
+{
+    let bin = match build_real_binary() { Ok(b) => b, Err(e) => { rep.machinery(e); return; } };
+    let thorough = tier == "thorough";
+    let depth = if thorough { 4 } else { 3 };
+    let mut scs = vec![crate::scen::s6_exec(), crate::scen::s1_chain(), crate::scen::s3_multi()];
+    if thorough { scs.push(crate::scen::s4_twins()); }
+    // keep only leaf traces: a trace that is a proper prefix of another is covered by it step by step
+    let mut total = 0u64;
+    let mut steps = 0u64;
+    let mut per = vec![];
+    let deadline = Instant::now() + Duration::from_secs(if thorough { 420 } else { 35 });
+    for sc in scs
+    {
+        let all = traces(&sc, depth);
+        let set: BTreeSet<String> = all.iter().map(|t| hist::ops_short(t)).collect();
+        let leaves: Vec<Vec<Op>> = all.iter().filter(|t|
+        {
+            let s = hist::ops_short(t);
+            !set.iter().any(|o| o.len() > s.len() && o.starts_with(&s) && o.as_bytes()[s.len()] == b' ')
+        }).cloned().collect();
+        let leaves = Arc::new(leaves);
+        let idx = Arc::new(AtomicUsize::new(0));
+        let found: Arc<Mutex<Vec<(Vec<Op>, String)>>> = Arc::new(Mutex::new(vec![]));
+        let done = Arc::new(AtomicUsize::new(0));
+        let stepc = Arc::new(AtomicUsize::new(0));
+        let mut hs = vec![];
+        for w in 0..crate::cli::threads()
+        {
+            let leaves = leaves.clone();
+            let idx = idx.clone();
+            let found = found.clone();
+            let done = done.clone();
+            let stepc = stepc.clone();
+            let sc = sc.clone();
+            let bin = bin.clone();
+            hs.push(std::thread::Builder::new().stack_size(16 << 20).spawn(move ||
+            {
+                let dir = scratch(&format!("realfs-{}-{}", sc.name, w));
+                loop
+                {
+                    let i = idx.fetch_add(1, Ordering::SeqCst);
+                    if i >= leaves.len() || Instant::now() >= deadline { break; }
+                    if let Some(msg) = replay_trace_real(&bin, &sc, &leaves[i], &dir)
+                    {
+                        found.lock().unwrap().push((leaves[i].clone(), msg));
+                    }
+                    done.fetch_add(1, Ordering::SeqCst);
+                    stepc.fetch_add(leaves[i].len(), Ordering::SeqCst);
+                }
+                let _ = fs::remove_dir_all(&dir);
+            }).unwrap());
+        }
+        for h in hs { let _ = h.join(); }
+        let d = done.load(Ordering::SeqCst);
+        total += d as u64;
+        steps += stepc.load(Ordering::SeqCst) as u64;
+        per.push(json!({"scenario": sc.name, "depth": depth, "model_traces": all.len(), "maximal_traces_replayed": d, "of": leaves.len()}));
+        if d < leaves.len() { rep.set("realfs_complete", json!(false)); }
+        if let Some(t) = leaves.first() { rep.push_sample(json!({"scenario": sc.name, "real_fs_trace": hist::ops_short(t)})); }
+        let mut seen = BTreeSet::new();
+        for (ops, msg) in found.lock().unwrap().iter()
+        {
+            let class: String = msg.splitn(2, ": ").nth(1).unwrap_or(msg).split(|c: char| c == '{' || c == '[' || c == '(').next().unwrap_or("").trim().to_string();
+            if !seen.insert(class.clone()) { continue; }
+            rep.violation(Violation
+            {
+                property: "C10".into(),
+                signature: format!("C10:realfs:{}:{}", sc.name, class),
+                summary: format!("real binary disagrees with the model on [{}]: {}", hist::ops_short(ops), msg),
+                replay: json!({"engine": "realfs", "scenario": sc.name, "ops": ops}),
+            });
+        }
+    }
+    rep.add("real_fs_replays", total);
+    rep.add("real_fs_steps", steps);
+    rep.add("traces_validated_against_impl", total);
+    rep.set("realfs", json!(per));
+}
+
+pub fn replay_realfs(v: &Value) -> i32
+{
+    let bin = match build_real_binary() { Ok(b) => b, Err(e) => { eprintln!("{}", e); return 2; } };
+    let sc = match crate::scen::by_name(v["scenario"].as_str().unwrap_or("")) { Some(s) => s, None => return 2 };
+    let ops: Vec<Op> = serde_json::from_value(v["ops"].clone()).unwrap_or_default();
+    let dir = scratch("realfs-replay");
+    let r = replay_trace_real(&bin, &sc, &ops, &dir);
+    let _ = fs::remove_dir_all(&dir);
+    match r { Some(m) => { println!("{}", m); 1 }, None => 0 }
+}
+
+// ---------------------------------------------------------------------------
+// serve (C19)
+
+fn free_port() -> u16
+{
+    let l = TcpListener::bind("127.0.0.1:0").expect("bind");
+    l.local_addr().unwrap().port()
+}
+
+pub struct Resp
+{
+    pub status: u16,
+    pub body: Vec<u8>,
+}
+
+pub fn http_get(port: u16, raw_path: &str) -> Result<Resp, String>
+{
+    let mut s = TcpStream::connect(("127.0.0.1", port)).map_err(|e| format!("connect: {}", e))?;
+    s.set_read_timeout(Some(Duration::from_secs(5))).ok();
+    s.set_write_timeout(Some(Duration::from_secs(5))).ok();
+    let req = format!("GET {} HTTP/1.1\r\nHost: 127.0.0.1\r\nConnection: close\r\n\r\n", raw_path);
+    s.write_all(req.as_bytes()).map_err(|e| format!("write: {}", e))?;
+    let mut buf = vec![];
+    s.read_to_end(&mut buf).map_err(|e| format!("read: {}", e))?;
+    let split = buf.windows(4).position(|w| w == b"\r\n\r\n").ok_or_else(|| format!("no header end in {:?}", String::from_utf8_lossy(&buf[..buf.len().min(80)])))?;
+    let head = String::from_utf8_lossy(&buf[..split]).to_string();
+    let status: u16 = head.split_whitespace().nth(1).and_then(|x| x.parse().ok()).ok_or("no status")?;
+    let mut body = buf[split + 4..].to_vec();
+    if head.to_ascii_lowercase().contains("transfer-encoding: chunked")
+    {
+        let mut out = vec![];
+        let mut i = 0;
+        while i < body.len()
+        {
+            let e = match body[i..].windows(2).position(|w| w == b"\r\n") { Some(e) => e, None => break };
+            let n = usize::from_str_radix(String::from_utf8_lossy(&body[i..i + e]).trim(), 16).unwrap_or(0);
+            if n == 0 { break; }
+            let st = i + e + 2;
+            if st + n > body.len() { break; }
+            out.extend_from_slice(&body[st..st + n]);
+            i = st + n + 2;
+        }
+        body = out;
+    }
+    Ok(Resp { status, body })
+}
+
+struct Server
+{
+    child: Child,
+    port: u16,
+}
+
+impl Drop for Server
+{
+    fn drop(&mut self)
+    {
+        let _ = self.child.kill();
+        let _ = self.child.wait();
+    }
+}
+
+fn start_server(bin: &Path, dir: &Path) -> Result<Server, String>
+{
+    for _attempt in 0..5
+    {
+        let port = free_port();
+        let child = Command::new(bin).args(["serve", &port.to_string()]).current_dir(dir).stdout(Stdio::null()).stderr(Stdio::null()).spawn().map_err(|e| format!("spawn: {}", e))?;
+        let mut srv = Server { child, port };
+        let start = Instant::now();
+        while start.elapsed() < Duration::from_secs(10)
+        {
+            if let Ok(Some(_)) = srv.child.try_wait() { break; }
+            if TcpStream::connect(("127.0.0.1", port)).is_ok() { return Ok(srv); }
+            std::thread::sleep(Duration::from_millis(20));
+        }
+    }
+    Err("server did not start".to_string())
+}
+
+fn materialise(fs_model: &Fs, dir: &Path)
+{
+    let _ = fs::remove_dir_all(dir);
+    fs::create_dir_all(dir).unwrap();
+    for (p, n) in fs_model.map.iter()
+    {
+        match n
+        {
+            Node::Dir => { let _ = fs::create_dir_all(dir.join(p)); },
+            Node::File(f) =>
+            {
+                let path = dir.join(p);
+                if let Some(parent) = path.parent() { let _ = fs::create_dir_all(parent); }
+                fs::write(&path, &*f.data).unwrap();
+                if f.exec { let _ = fs::set_permissions(&path, fs::Permissions::from_mode(0o755)); }
+            },
+        }
+    }
+}
+
+pub fn hostile_names() -> Vec<String>
+{
+    let valid = refsha::encode62(&refsha::sha256(b"some content that is not cached"));
+    let mut v: Vec<String> = vec![
+        "".into(), "0".into(), "a".into(), "Z".repeat(42), "0".repeat(42), "0".repeat(44), "a".repeat(86), "Z".repeat(43),
+        "-".repeat(43), "_".repeat(43), ".".repeat(43), "..".into(), ".".into(), "%2e%2e".into(), "%2E%2E%2Fcurrent_file_states".into(),
+        "..%2fcurrent_file_states".into(), "../current_file_states".into(), "../../build.rules".into(), "inbox".into(), "current_file_states".into(),
+        "%00".into(), "caf%C3%A9".into(), format!("{}%00", &valid[..42]), format!("{}/", valid), format!("{}/extra", valid), format!("{}?x=1", "0".repeat(10)),
+        format!("{}.", &valid[..42]), format!("{}-", &valid[..42]), format!("{} ", &valid[..42]).replace(' ', "%20"), format!("{}%2F", &valid[..40]),
+        valid.to_uppercase().replace(|c: char| c.is_ascii_digit(), "-"), format!("x{}", valid), format!("{}x", valid), "history".into(), "cache".into(),
+        "*".into(), "%2A".into(), "~".into(), "%7E".into(), "a b".replace(' ', "%20"), "\\..\\current_file_states".replace('\\', "%5C"),
+    ];
+    for i in [0usize, 1, 21, 42]
+    {
+        for c in ["-", "_", ".", "%2F", "%25", "+", "=", "!"]
+        {
+            let mut s: Vec<String> = valid.chars().map(|c| c.to_string()).collect();
+            s[i] = c.to_string();
+            v.push(s.concat());
+        }
+    }
+    v
+}
+
+/// The complete request menu for one materialised directory; returns findings.
+fn serve_menu(port: u16, fs_model: &Fs, extra_valid: &[String], requests: &mut u64, okays: &mut u64) -> Vec<(String, String)>
+{
+    let mut bad: Vec<(String, String)> = vec![];
+    let cache = cache_listing(fs_model);
+    let histd = decode_history(fs_model);
+    // files that must never be served
+    let mut forbidden: Vec<Vec<u8>> = vec![];
+    for (p, n) in fs_model.map.iter()
+    {
+        if let Node::File(f) = n
+        {
+            if !p.starts_with(".ruler/cache/") && !p.starts_with(".ruler/history/") && !f.data.is_empty() { forbidden.push((*f.data).clone()); }
+        }
+    }
+    let mut get = |path: &str, bad: &mut Vec<(String, String)>| -> Option<Resp>
+    {
+        *requests += 1;
+        match http_get(port, path)
+        {
+            Ok(r) =>
+            {
+                if forbidden.iter().any(|f| *f == r.body) && !cache.values().any(|c| **c == r.body)
+                {
+                    bad.push(("a file outside the cache and history directories was served".into(), format!("GET {}", path)));
+                }
+                Some(r)
+            },
+            Err(e) => { bad.push(("the server stopped answering".into(), format!("GET {}: {}", path, e))); None },
+        }
+    };
+    // every cache entry: 200, exact bytes, name = hash of body
+    for (name, data) in &cache
+    {
+        if name.len() != 43 { continue; }
+        if let Some(r) = get(&format!("/files/{}", name), &mut bad)
+        {
+            if r.status != 200 || r.body != **data
+            {
+                bad.push(("a cached file is not returned (200 + exact bytes)".into(), format!("GET /files/{} -> {} with {} bytes", name, r.status, r.body.len())));
+            }
+            else
+            {
+                *okays += 1;
+                if refsha::cache_name(&r.body) != *name { bad.push(("served bytes do not hash to the requested name".into(), name.clone())); }
+            }
+        }
+    }
+    // valid hashes that are not cached: 404
+    let mut absent: Vec<String> = extra_valid.to_vec();
+    absent.extend(histd.keys().filter(|k| k.len() == 43).cloned());
+    for name in absent.iter().filter(|n| !cache.contains_key(*n))
+    {
+        if let Some(r) = get(&format!("/files/{}", name), &mut bad)
+        {
+            if r.status != 404 { bad.push(("a hash that is not in the cache does not give 404".into(), format!("GET /files/{} -> {}", name, r.status))); }
+        }
+    }
+    // every recorded (rule, sources) pair: 200 + newline-joined target hashes in target order
+    let mut all_sources: BTreeSet<String> = BTreeSet::new();
+    for (rule, dec) in &histd
+    {
+        if let Some(m) = dec
+        {
+            for (src, targets) in m
+            {
+                let s = refsha::encode62(src);
+                all_sources.insert(s.clone());
+                let want = targets.iter().map(|t| refsha::encode62(t)).collect::<Vec<_>>().join("\n");
+                if let Some(r) = get(&format!("/rules/{}/{}", rule, s), &mut bad)
+                {
+                    if r.status != 200 || r.body != want.as_bytes()
+                    {
+                        bad.push(("a recorded rule result is not returned (200 + target hashes in order)".into(), format!("GET /rules/{}/{} -> {} {:?}", rule, s, r.status, String::from_utf8_lossy(&r.body))));
+                    }
+                    else { *okays += 1; }
+                }
+            }
+        }
+    }
+    // cross pairs that are not recorded: 404
+    for (rule, dec) in &histd
+    {
+        if rule.len() != 43 { continue; }
+        for s in all_sources.iter().chain(extra_valid.iter())
+        {
+            let recorded = match dec { Some(m) => m.keys().any(|k| refsha::encode62(k) == *s), None => false };
+            if recorded { continue; }
+            if let Some(r) = get(&format!("/rules/{}/{}", rule, s), &mut bad)
+            {
+                if r.status != 404 { bad.push(("an unrecorded (rule, sources) pair does not give 404".into(), format!("GET /rules/{}/{} -> {}", rule, s, r.status))); }
+            }
+        }
+    }
+    for v in extra_valid
+    {
+        if histd.contains_key(v) { continue; }
+        if let Some(r) = get(&format!("/rules/{}/{}", v, v), &mut bad)
+        {
+            if r.status != 404 { bad.push(("an unknown rule does not give 404".into(), format!("GET /rules/{}/{} -> {}", v, v, r.status))); }
+        }
+    }
+    // malformed / hostile names on both endpoints: 404
+    let some_valid = cache.keys().next().cloned().or_else(|| extra_valid.first().cloned()).unwrap_or_else(|| "0".repeat(43));
+    for h in hostile_names()
+    {
+        for path in [format!("/files/{}", h), format!("/rules/{}/{}", h, some_valid), format!("/rules/{}/{}", some_valid, h)]
+        {
+            if let Some(r) = get(&path, &mut bad)
+            {
+                // a name that happens to decode (e.g. after percent-decoding) is judged by the reference decoder
+                let seg_ok = |s: &str| refsha::decode62(s).is_ok();
+                let decoded: String = percent_decode(&h);
+                let plausible = seg_ok(&decoded) && !decoded.contains('/');
+                if r.status != 404 && !plausible
+                {
+                    bad.push(("a malformed name does not give 404".into(), format!("GET {} -> {}", path, r.status)));
+                }
+            }
+        }
+    }
+    for path in ["/", "/files", "/files/", "/rules", "/rules/", &format!("/rules/{}", some_valid), "/current_file_states", "/cache", &format!("/cache/{}", some_valid), "/../build.rules"]
+    {
+        if let Some(r) = get(path, &mut bad)
+        {
+            if r.status == 200 { bad.push(("a path outside the two endpoints is served".into(), format!("GET {} -> 200", path))); }
+        }
+    }
+    // still alive
+    if let Some((name, data)) = cache.iter().find(|(n, _)| n.len() == 43)
+    {
+        match http_get(port, &format!("/files/{}", name))
+        {
+            Ok(r) if r.status == 200 && r.body == **data => {},
+            other => bad.push(("the server does not keep running after hostile requests".into(), format!("{:?}", other.map(|r| r.status)))),
+        }
+        *requests += 1;
+    }
+    else
+    {
+        *requests += 1;
+        if http_get(port, &format!("/files/{}", some_valid)).map(|r| r.status) != Ok(404)
+        {
+            bad.push(("the server does not keep running after hostile requests".into(), String::new()));
+        }
+    }
+    bad
+}
+
+fn percent_decode(s: &str) -> String
+{
+    let b = s.as_bytes();
+    let mut out = vec![];
+    let mut i = 0;
+    while i < b.len()
+    {
+        if b[i] == b'%' && i + 3 <= b.len()
+        {
+            if let Ok(v) = u8::from_str_radix(&s[i + 1..i + 3], 16) { out.push(v); i += 3; continue; }
+        }
+        out.push(b[i]);
+        i += 1;
+    }
+    String::from_utf8_lossy(&out).to_string()
+}
+
+/// distinct ruler directories (cache + history) reached by hist on the scenario
+fn ruler_dirs(sc: &Scenario, depth: usize, cap: usize) -> Vec<(Vec<Op>, Fs)>
+{
+    let sc2 = sc.clone();
+    let (r, _o) = sched::run_once(vec![], move ||
+    {
+        let or = Oracles::default();
+        let ctx = Ctx { sc: &sc2, clock: ClockModel::Strict, or: &or };
+        let mut seen = std::collections::HashSet::new();
+        let mut seen_dirs: BTreeSet<String> = BTreeSet::new();
+        let init = initial_state(&sc2, false);
+        seen.insert(init.key(false));
+        let mut frontier = vec![init];
+        let mut out: Vec<(Vec<Op>, Fs)> = vec![];
+        for _ in 0..depth
+        {
+            let mut next = vec![];
+            for st in &frontier
+            {
+                for op in enabled_ops(&sc2, st)
+                {
+                    let mut stats = Stats::default();
+                    let mut f = vec![];
+                    let ns = apply(&ctx, st, &op, &mut stats, &mut f);
+                    if seen.insert(ns.key(false))
+                    {
+                        let k = format!("{:?}|{:?}", cache_listing(&ns.fs).keys().collect::<Vec<_>>(), decode_history(&ns.fs));
+                        if ns.fs.is_dir(CACHE_DIR) && seen_dirs.insert(k) { out.push((ns.path.clone(), ns.fs.clone())); }
+                        next.push(ns);
+                    }
+                }
+            }
+            frontier = next;
+        }
+        out
+    });
+    let mut v = r.unwrap_or_default();
+    // prefer the richest directories
+    v.sort_by_key(|(_p, fs)| std::cmp::Reverse(cache_listing(fs).len() * 10 + decode_history(fs).len()));
+    v.truncate(cap);
+    v
+}
+
+pub fn run_serve(rep: &mut Report, tier: &str)
+{
+    let bin = match build_real_binary() { Ok(b) => b, Err(e) => { rep.machinery(e); return; } };
+    let thorough = tier == "thorough";
+    let cap = if thorough { 60 } else { 12 };
+    let mut dirs: Vec<(String, Vec<Op>, Fs)> = vec![];
+    for sc in [crate::scen::s1_chain(), crate::scen::s3_multi()]
+    {
+        for (p, fs) in ruler_dirs(&sc, if thorough { 5 } else { 4 }, cap / 2)
+        {
+            dirs.push((sc.name.clone(), p, fs));
+        }
+    }
+    let dirs = Arc::new(dirs);
+    let idx = Arc::new(AtomicUsize::new(0));
+    let found: Arc<Mutex<Vec<(usize, String, String)>>> = Arc::new(Mutex::new(vec![]));
+    let reqs = Arc::new(Mutex::new((0u64, 0u64)));
+    let machinery: Arc<Mutex<Vec<String>>> = Arc::new(Mutex::new(vec![]));
+    let mut hs = vec![];
+    for w in 0..crate::cli::threads().min(8)
+    {
+        let dirs = dirs.clone();
+        let idx = idx.clone();
+        let found = found.clone();
+        let reqs = reqs.clone();
+        let machinery = machinery.clone();
+        let bin = bin.clone();
+        hs.push(std::thread::spawn(move ||
+        {
+            let dir = scratch(&format!("serve-{}", w));
+            loop
+            {
+                let i = idx.fetch_add(1, Ordering::SeqCst);
+                if i >= dirs.len() { break; }
+                let (_sc, _path, fs_model) = &dirs[i];
+                // plant files that must not be served
+                let mut fsm = fs_model.clone();
+                fsm.put("secret.txt", crate::memsys::bytes("TOP SECRET outside .ruler"), 1, None);
+                fsm.put(".ruler/private-note", crate::memsys::bytes("inside .ruler but outside cache and history"), 1, None);
+                materialise(&fsm, &dir);
+                let srv = match start_server(&bin, &dir) { Ok(s) => s, Err(e) => { machinery.lock().unwrap().push(e); continue; } };
+                // valid hashes that are not cache entries: leaf hashes, a rule ticket, an arbitrary one
+                let mut extra: Vec<String> = vec![refsha::encode62(&refsha::sha256(b"not cached anywhere")), refsha::encode62(&[0u8; 32]), refsha::encode62(&[0xff; 32])];
+                for (p, n) in fsm.map.iter() { if let Node::File(f) = n { if !p.starts_with(".ruler") { extra.push(refsha::cache_name(&f.data)); } } }
+                let (mut r, mut k) = (0u64, 0u64);
+                let bad = serve_menu(srv.port, &fsm, &extra, &mut r, &mut k);
+                { let mut g = reqs.lock().unwrap(); g.0 += r; g.1 += k; }
+                for (what, detail) in bad { found.lock().unwrap().push((i, what, detail)); }
+                drop(srv);
+            }
+            let _ = fs::remove_dir_all(&dir);
+        }));
+    }
+    for h in hs { let _ = h.join(); }
+    for m in machinery.lock().unwrap().iter() { rep.machinery(m.clone()); }
+    let (r, k) = *reqs.lock().unwrap();
+    rep.set("states", json!(dirs.len()));
+    rep.set("transitions", json!(r));
+    rep.set("traces_validated_against_impl", json!(r));
+    rep.set("requests", json!(r));
+    rep.set("requests_answered_200_with_exact_content", json!(k));
+    rep.set("hostile_names_per_endpoint_position", json!(hostile_names().len()));
+    rep.set("exhaustive", json!(true));
+    rep.set("rule", json!("every distinct (cache listing, decoded history) directory reached by hist on S1/S3 up to the cap, richest first; per directory the complete request menu: every cache entry, every valid hash not cached, every recorded (rule, sources) pair, every cross pair, the hostile list on /files and both /rules positions, paths outside the endpoints"));
+    for (sc, p, fs) in dirs.iter().take(3)
+    {
+        rep.push_sample(json!({"scenario": sc, "history_that_produced_the_directory": hist::ops_short(p), "cache_entries": cache_listing(fs).len(), "history_files": decode_history(fs).len()}));
+    }
+    let mut seen = BTreeSet::new();
+    for (i, what, detail) in found.lock().unwrap().iter()
+    {
+        if !seen.insert(what.clone()) { continue; }
+        let (sc, p, _fs) = &dirs[*i];
+        rep.violation(Violation
+        {
+            property: "C19".into(),
+            signature: format!("C19:serve:{}", what),
+            summary: format!("{}: {} (directory produced by {} [{}])", what, detail, sc, hist::ops_short(p)),
+            replay: json!({"engine": "serve", "scenario": sc, "ops": p, "what": what}),
+        });
+    }
+}
+
+pub fn replay_serve(v: &Value) -> i32
+{
+    let bin = match build_real_binary() { Ok(b) => b, Err(e) => { eprintln!("{}", e); return 2; } };
+    let sc = match crate::scen::by_name(v["scenario"].as_str().unwrap_or("")) { Some(s) => s, None => return 2 };
+    let ops: Vec<Op> = serde_json::from_value(v["ops"].clone()).unwrap_or_default();
+    let or = Oracles::default();
+    let (_f, _fail, st) = hist::replay_history(&sc, ClockModel::Strict, &or, false, false, &ops);
+    let mut fsm = st.fs.clone();
+    fsm.put("secret.txt", crate::memsys::bytes("TOP SECRET outside .ruler"), 1, None);
+    fsm.put(".ruler/private-note", crate::memsys::bytes("inside .ruler but outside cache and history"), 1, None);
+    let dir = scratch("serve-replay");
+    materialise(&fsm, &dir);
+    let srv = match start_server(&bin, &dir) { Ok(s) => s, Err(e) => { eprintln!("{}", e); return 2; } };
+    let extra = vec![refsha::encode62(&refsha::sha256(b"not cached anywhere"))];
+    let (mut r, mut k) = (0, 0);
+    let bad = serve_menu(srv.port, &fsm, &extra, &mut r, &mut k);
+    drop(srv);
+    let _ = fs::remove_dir_all(&dir);
+    let what = v["what"].as_str().unwrap_or("");
+    let mut hit = false;
+    for (w, d) in bad { println!("{}: {}", w, d); if w == what || what.is_empty() { hit = true; } }
+    if hit { 1 } else { 0 }
+}
